@@ -35,7 +35,13 @@ const P: &str = "C19";
 #[derive(Clone, Debug, Serialize, Deserialize, PartialEq)]
 pub enum AppKind {
   /// custom stream; `late`: drained only after shutdown returned
-  Custom { buffer: u16, late: bool },
+  Custom {
+    buffer: u16,
+    late: bool,
+    /// slow consumer: microseconds of sleep per event (0 = none)
+    #[serde(default)]
+    slow_us: u16,
+  },
   /// plain file; json: json_lines encoder instead of the pattern encoder
   File { json: bool, flatten: bool },
   Console,
@@ -71,7 +77,7 @@ pub struct E2eCase {
 
 fn app_spec() -> impl Strategy<Value = AppSpec> {
   let kind = prop_oneof![
-    4 => (prop::sample::select(vec![1u16, 2, 3, 8, 64, 256]), prop::bool::weighted(0.3)).prop_map(|(buffer, late)| AppKind::Custom { buffer, late }),
+    4 => (prop::sample::select(vec![1u16, 2, 3, 8, 64, 256]), prop::bool::weighted(0.3), prop_oneof![3 => Just(0u16), 1 => prop::sample::select(vec![50u16, 300, 1500])]).prop_map(|(buffer, late, slow_us)| AppKind::Custom { buffer, late, slow_us }),
     3 => (any::<bool>(), any::<bool>()).prop_map(|(json, flatten)| AppKind::File { json, flatten }),
     1 => Just(AppKind::Console),
     2 => prop::sample::select(vec![40u16, 200, 2000]).prop_map(|max_size| AppKind::Rolling { max_size }),
@@ -112,6 +118,7 @@ fn total_events(c: &E2eCase) -> usize {
 fn kind_tag(k: &AppKind) -> &'static str {
   match k {
     AppKind::Custom { late: true, .. } => "custom_late",
+    AppKind::Custom { slow_us, .. } if *slow_us > 0 => "custom_slow",
     AppKind::Custom { .. } => "custom",
     AppKind::File { json: true, .. } => "file_json",
     AppKind::File { .. } => "file",
@@ -136,7 +143,7 @@ pub fn config_yaml(c: &E2eCase, dir: &Path) -> String {
       }
     };
     match &a.kind {
-      AppKind::Custom { buffer, late } => {
+      AppKind::Custom { buffer, late, .. } => {
         // a stream nobody reads until after shutdown must be able to hold the whole script,
         // otherwise the blocking policy blocks the emitters forever — by design, not a defect
         let b = if *late { (*buffer as usize).max(total + 1) } else { *buffer as usize };
@@ -326,7 +333,7 @@ fn execute_in(c: &E2eCase, dir: &Path) -> Result<CaseReport, Failure> {
     config_path: config_path.to_string_lossy().to_string(),
     out_dir: dir.to_string_lossy().to_string(),
     threads: threads.clone(),
-    streams: c.appenders.iter().enumerate().filter_map(|(i, a)| if let AppKind::Custom { late, .. } = a.kind { Some(StreamJob { name: appender_name(i as u8), late_drain: late }) } else { None }).collect(),
+    streams: c.appenders.iter().enumerate().filter_map(|(i, a)| if let AppKind::Custom { late, slow_us, .. } = a.kind { Some(StreamJob { name: appender_name(i as u8), late_drain: late, delay_us: slow_us as u32 }) } else { None }).collect(),
     shutdown_at,
     via_drop: c.via_drop,
   };
@@ -352,6 +359,19 @@ fn execute_in(c: &E2eCase, dir: &Path) -> Result<CaseReport, Failure> {
     }
     ChildOutcome::Crashed(m) => return Err(Failure::new(P, format!("e2e/child_crashed/{mode}"), format!("{m}\nconfig:\n{yaml}"))),
   };
+  // what the library itself reported (write failures, abandoned appender tasks, …)
+  let child_stderr: String = std::fs::read_to_string(dir.join("stderr.txt")).unwrap_or_default();
+  let lib_said = {
+    let v: Vec<&str> = child_stderr.lines().filter(|l| l.contains("fibre_logging")).take(6).collect();
+    if v.is_empty() { String::new() } else { format!("; child stderr: {}", clip(&v.join(" | "), 700)) }
+  };
+  if child_stderr.contains("did not shut down within") {
+    // the shutdown deadline (5 s for Drop, 20 s here for shutdown()) expired and the library
+    // abandoned a writer thread, as documented: a stall, not a routing/delivery verdict
+    rep.inconclusive = 1;
+    rep.class("e2e/shutdown_deadline_hit");
+    return Ok(rep);
+  }
   if let Some(e) = &res.init_error {
     return Err(Failure::new("INFRA", "e2e/config_rejected", format!("{e}\n{yaml}")));
   }
@@ -396,7 +416,7 @@ fn execute_in(c: &E2eCase, dir: &Path) -> Result<CaseReport, Failure> {
           return Err(Failure::new(P, sig("empty_before_disconnect"), format!("stream {name}: try_recv returned Empty after shutdown returned, before Disconnected")));
         }
         if !sr.disconnected {
-          return Err(Failure::new(P, sig("no_disconnect"), format!("stream {name}: receiver did not observe Disconnected within the driver's wait (6 s) after shutdown returned")));
+          return Err(Failure::new(P, sig("no_disconnect"), format!("stream {name}: receiver made no progress for 6 s after shutdown returned and still had not observed Disconnected")));
         }
         sr.events.into_iter().map(|(msg, level, target)| Delivered { msg, level, target }).collect()
       }
@@ -470,14 +490,14 @@ fn execute_in(c: &E2eCase, dir: &Path) -> Result<CaseReport, Failure> {
             return Err(Failure::new(
               P,
               format!("{}/{api}/{}", sig("lost"), situation(v)),
-              format!("appender {name} never received e{t}-{s} (target={} level={} via {api}) although the emitting call returned before shutdown was started; loggers: {}", TARGETS[ev.target as usize], level_name(ev.level), describe(&c.loggers)),
+              format!("appender {name} never received e{t}-{s} (target={} level={} via {api}) although the emitting call returned before shutdown was started (shutdown took {} ms); loggers: {}{lib_said}", TARGETS[ev.target as usize], level_name(ev.level), res.shutdown_ms, describe(&c.loggers)),
             ));
           }
           // an event delivered after an undelivered one of the same thread means the earlier one
           // was accepted (the channel was still open later) and then lost
           if have {
             if let Some(m) = missing_before {
-              return Err(Failure::new(P, format!("{}/{}", sig("gap"), situation(&verdicts[t][m])), format!("appender {name}: e{t}-{s} arrived but the earlier e{t}-{m} did not; loggers: {}", describe(&c.loggers))));
+              return Err(Failure::new(P, format!("{}/{}", sig("gap"), situation(&verdicts[t][m])), format!("appender {name}: e{t}-{s} arrived but the earlier e{t}-{m} did not; loggers: {}{lib_said}", describe(&c.loggers))));
             }
           } else if missing_before.is_none() {
             missing_before = Some(s);
